@@ -240,3 +240,245 @@ def NoG2Compressed (prog : List MInstr) : Prop := noG2CompressedFrom [] prog = t
 instance (prog : List MInstr) : Decidable (NoG2Compressed prog) := by unfold NoG2Compressed; infer_instance
 
 end Sm9
+
+namespace Sm9
+
+/-! ## Field programs (C07): register machines over Fr resp. Fq values
+
+This is the machine the line-protocol programs `prog.fr` / `prog.fq` are run on (the driver only
+parses the text of a step into an `FInstr` and calls `fstep`).  Every successful step appends one
+register.  The instruction set is the public scalar / base-field API of `lib.rs`:
+constructors from bytes (`const`, `slice`), decimal strings (`str`), hashes (`hash`, Fr only),
+randomness (`random`, Fr only: a script of 8 RNG words), `add sub mul neg`, `pow` (the exponent is a
+register), `inverse`, `sqrt` (Fq only), `set_bit` (Fr only) and `dup` (a copy).
+
+One machine `fstep O`, parameterised by a record `O : FOps α` of operations, is instantiated
+* at the LIMB level (`FrProg.opsL`, `FqProg.opsL : FOps Nat`: registers are the stored Montgomery
+  representatives and the operations are the limb-model functions of `Sm9/Model/Mont.lean` that the
+  `lib.rs` wrappers call), and
+* at the VALUE level (`FrProg.opsV : FOps Fr`, `FqProg.opsV : FOps Fq`: what the driver runs).
+
+Conventions (those of the test harness): a constructor or operation whose API result is `None`
+(bad length, non-digit, `inverse` of zero, `sqrt` of a non-square) leaves zero; a step fails
+(`none`) on a register index out of range, on an instruction that does not exist for the field
+(`hash random setbit` for Fq, `sqrt` for Fr), on a `random` script that is not 8 words long and on a
+`const` literal that has no 32- or 64-byte encoding.  At the limb level a step also fails when a
+model function panics or runs out of fuel (`Sm9/Proofs/FieldProgram.lean` proves it never does). -/
+
+inductive FInstr where
+  | const (v : Nat)
+  | slice (bs : List UInt8)
+  | str (cs : List Char)
+  | hash (bs : List UInt8)
+  | random (draw : List Nat)
+  | add (i j : Nat) | sub (i j : Nat) | mul (i j : Nat) | pow (i j : Nat)
+  | neg (i : Nat) | dup (i : Nat) | inv (i : Nat) | sqrt (i : Nat)
+  | setbit (i b : Nat) (v : Bool)
+
+/-- the operations of one field at one level; `none` = the step cannot be performed -/
+structure FOps (α : Type) where
+  const : Nat → Option α
+  slice : List UInt8 → Option α
+  str : List Char → Option α
+  hash : List UInt8 → Option α
+  random : List Nat → Option α
+  add : α → α → Option α
+  sub : α → α → Option α
+  mul : α → α → Option α
+  pow : α → α → Option α
+  neg : α → Option α
+  inv : α → Option α
+  sqrt : α → Option α
+  setbit : α → Nat → Bool → Option α
+
+/-- the register computed by one instruction (`none`: the step cannot be performed) -/
+def fnew {α} (O : FOps α) (regs : List α) : FInstr → Option α
+  | .const v => O.const v
+  | .slice bs => O.slice bs
+  | .str cs => O.str cs
+  | .hash bs => O.hash bs
+  | .random draw => O.random draw
+  | .add i j => match regs[i]?, regs[j]? with
+    | some a, some b => O.add a b
+    | _, _ => none
+  | .sub i j => match regs[i]?, regs[j]? with
+    | some a, some b => O.sub a b
+    | _, _ => none
+  | .mul i j => match regs[i]?, regs[j]? with
+    | some a, some b => O.mul a b
+    | _, _ => none
+  | .pow i j => match regs[i]?, regs[j]? with
+    | some a, some b => O.pow a b
+    | _, _ => none
+  | .neg i => match regs[i]? with
+    | some a => O.neg a
+    | none => none
+  | .dup i => regs[i]?
+  | .inv i => match regs[i]? with
+    | some a => O.inv a
+    | none => none
+  | .sqrt i => match regs[i]? with
+    | some a => O.sqrt a
+    | none => none
+  | .setbit i b v => match regs[i]? with
+    | some a => O.setbit a b v
+    | none => none
+
+/-- one step of a field machine; every successful step appends one register -/
+def fstep {α} (O : FOps α) (regs : List α) (ins : FInstr) : Option (List α) :=
+  match fnew O regs ins with
+  | some x => some (regs ++ [x])
+  | none => none
+
+/-- run from a given register file -/
+def frunFrom {α} (O : FOps α) : List α → List FInstr → Option (List α)
+  | regs, [] => some regs
+  | regs, ins :: rest => match fstep O regs ins with
+    | some regs' => frunFrom O regs' rest
+    | none => none
+
+def frun {α} (O : FOps α) (prog : List FInstr) : Option (List α) := frunFrom O [] prog
+
+namespace FProg
+
+/-- the byte string a `const` literal stands for: its 32-byte big-endian encoding, or its
+    64-byte encoding when it does not fit 32 bytes (`none`: it fits neither) -/
+def constBytes (v : Nat) : Option (List UInt8) :=
+  if v < W256 then some (beBytes 32 v)
+  else if v < W256 * W256 then some (beBytes 64 v)
+  else none
+
+/-- `Fr::from_slice` / `Fq::from_slice` of lib.rs on limbs: 1..=31 bytes are left-padded and strictly
+    decoded, 32 bytes are reduced by a Montgomery multiplication with R², 33..=64 bytes are
+    left-padded and reduced by `interpret` (`= Sm9.Fp.lib_from_slice` of Proofs/LibScalar.lean) -/
+def libFromSlice (P : MontParams) (hex : List UInt8) : Outcome (Option Nat) :=
+  let len := hex.length
+  if 1 ≤ len ∧ len ≤ 31 then .ok (Fp.from_slice P (List.replicate (32 - len) 0 ++ hex))
+  else if len = 32 then .ok ((U256.from_slice hex).map (Fp.new_mul_factor P))
+  else if 33 ≤ len ∧ len ≤ 64 then
+    (Fp.interpret P (List.replicate (64 - len) 0 ++ hex)).bind (fun y => .ok (some y))
+  else .ok none
+
+/-- limb level: an API result `None` leaves zero; a panic stops the machine -/
+def orZero : Outcome (Option Nat) → Option Nat
+  | .ok (some y) => some y
+  | .ok none => some Fp.zero
+  | .panic => none
+
+/-- limb level, `const`: `from_slice(bytes)?` — the machine stops unless a value is returned -/
+def constL (P : MontParams) (v : Nat) : Option Nat :=
+  match constBytes v with
+  | some bs => (match libFromSlice P bs with
+    | .ok (some y) => some y
+    | _ => none)
+  | none => none
+
+/-- limb level, `inverse().unwrap_or(zero)`; running out of fuel stops the machine -/
+def invL (P : MontParams) (a : Nat) : Option Nat :=
+  match Fp.inverse P a with
+  | some (some y) => some y
+  | some none => some Fp.zero
+  | none => none
+
+/-- the value denoted by the result of `Fr::random` on an 8-word script: the 512-bit draw is
+    reduced and stored as the Montgomery representative, i.e. the value is draw · R⁻¹ -/
+def frRandomVal (draw : List Nat) : Fr :=
+  Fr.ofNat (Limb.value B64 draw) * (Fr.ofNat W256).pow (r - 2)
+
+end FProg
+
+namespace FrProg
+
+/-- LIMB level, scalar field: registers are stored Montgomery representatives -/
+def opsL : FOps Nat where
+  const := FProg.constL paramsR
+  slice := fun bs => FProg.orZero (FProg.libFromSlice paramsR bs)
+  str := fun cs => some ((Fp.from_str paramsR cs).getD Fp.zero)
+  hash := fun bs => FProg.orZero (FrL.from_hash bs)
+  random := fun draw => if draw.length = 8 then some (Fp.random paramsR draw) else none
+  add := fun a b => some (Fp.add paramsR a b)
+  sub := fun a b => some (Fp.sub paramsR a b)
+  mul := fun a b => some (Fp.mul paramsR a b)
+  pow := fun a e => some (Fp.pow paramsR a e)
+  neg := fun a => some (Fp.neg paramsR a)
+  inv := FProg.invL paramsR
+  sqrt := fun _ => none
+  setbit := fun a b v => some (Fp.set_bit paramsR a b v)
+
+/-- VALUE level, scalar field (what the driver runs for `prog.fr`) -/
+def opsV : FOps Fr where
+  const := fun v => (FProg.constBytes v).map (fun _ => Fr.ofNat v)
+  slice := fun bs => some ((Api.frFromSlice bs).getD 0)
+  str := fun cs => some ((Api.frFromStr cs).getD 0)
+  hash := fun bs => some ((Api.frFromHash bs).getD 0)
+  random := fun draw => if draw.length = 8 then some (FProg.frRandomVal draw) else none
+  add := fun a b => some (a + b)
+  sub := fun a b => some (a - b)
+  mul := fun a b => some (a * b)
+  pow := fun a e => some (a.pow e.val)
+  neg := fun a => some (-a)
+  inv := fun a => some (a.inverse.getD 0)
+  sqrt := fun _ => none
+  setbit := fun a b v => some (Api.frSetBit a b v)
+
+/-- the limb-level interpreter -/
+def fstepL : List Nat → FInstr → Option (List Nat) := fstep opsL
+/-- the value-level interpreter -/
+def fstepV : List Fr → FInstr → Option (List Fr) := fstep opsV
+def frunL : List FInstr → Option (List Nat) := frun opsL
+def frunV : List FInstr → Option (List Fr) := frun opsV
+
+end FrProg
+
+namespace FqProg
+
+/-- LIMB level, base field -/
+def opsL : FOps Nat where
+  const := FProg.constL paramsQ
+  slice := fun bs => FProg.orZero (FProg.libFromSlice paramsQ bs)
+  str := fun cs => some ((Fp.from_str paramsQ cs).getD Fp.zero)
+  hash := fun _ => none
+  random := fun _ => none
+  add := fun a b => some (Fp.add paramsQ a b)
+  sub := fun a b => some (Fp.sub paramsQ a b)
+  mul := fun a b => some (Fp.mul paramsQ a b)
+  pow := fun a e => some (Fp.pow paramsQ a e)
+  neg := fun a => some (Fp.neg paramsQ a)
+  inv := FProg.invL paramsQ
+  sqrt := fun a => some ((FqL.sqrt a).getD Fp.zero)
+  setbit := fun _ _ _ => none
+
+/-- VALUE level, base field (what the driver runs for `prog.fq`) -/
+def opsV : FOps Fq where
+  const := fun v => (FProg.constBytes v).map (fun _ => Fq.ofNat v)
+  slice := fun bs => some ((Api.fqFromSlice bs).getD 0)
+  str := fun cs => some ((Api.fqFromStr cs).getD 0)
+  hash := fun _ => none
+  random := fun _ => none
+  add := fun a b => some (a + b)
+  sub := fun a b => some (a - b)
+  mul := fun a b => some (a * b)
+  pow := fun a e => some (a.pow e.val)
+  neg := fun a => some (-a)
+  inv := fun a => some (a.inverse.getD 0)
+  sqrt := fun a => some (a.sqrt.getD 0)
+  setbit := fun _ _ _ => none
+
+def fstepL : List Nat → FInstr → Option (List Nat) := fstep opsL
+def fstepV : List Fq → FInstr → Option (List Fq) := fstep opsV
+def frunL : List FInstr → Option (List Nat) := frun opsL
+def frunV : List FInstr → Option (List Fq) := frun opsV
+
+end FqProg
+
+/-! observations of a limb-level register (what `==`, `is_zero`, `to_slice`, `is_even` read) -/
+namespace FProg
+/-- derived `PartialEq`: equality of the raw limbs -/
+def eqObs (x y : Nat) : Bool := x == y
+def isZeroObs (x : Nat) : Bool := Fp.is_zero x
+def toSliceObs (P : MontParams) (x : Nat) : List UInt8 := Fp.to_slice P x
+/-- `Fq::is_even`: parity of the value taken out of Montgomery form -/
+def isEvenObs (x : Nat) : Bool := Big.is_even (Fp.into_u256 paramsQ x)
+end FProg
+
+end Sm9
